@@ -499,7 +499,7 @@ func (c BearerCase) want() (string, string) {
 	switch {
 	case c.Header == "bearer":
 		return string(c.HdrTok), "header"
-	case c.Query:
+	case c.Query && c.QueryTok != "": // an access_token parameter without a value carries no token (r9)
 		return string(c.QueryTok), "query"
 	case c.Body == "urlencoded" || c.Body == "multipart":
 		return string(c.BodyTok), "body"
